@@ -469,26 +469,28 @@ func runnerLineage(r *lib.Run, idx int) {
 			if bit && hasState {
 				viol("intermediate-state-present-with-applied-bit", fmt.Sprintf("slot %d state %v", i, s))
 			}
-			if bit && !markersPresent(after, i, slots[i].Steps) {
-				// which return value preceded it?
-				shape := "unknown"
+			if bit && !pre.Current.Has(uint8(i)) {
+				// newly applied in this run: which Migrate return value preceded it?
+				shape := "not-called"
 				for _, c := range cl.calls {
 					if c.Slot == i {
 						shape = c.Outcome
 					}
 				}
-				cls := "applied-bit-set-but-migration-work-incomplete:after-" + shape
-				if shape == "cancel:"+cancelStyleNames[cancelNilCtxErr] {
-					cls = "runner-marks-migration-applied-when-it-returns-nil-state-with-context-error"
+				switch {
+				case shape == "complete":
+					if at := completedAt[i]; crashK >= 0 && at > crashK {
+						viol("applied-bit-durable-before-migration-returned", fmt.Sprintf("slot %d: bit is in the image of the first %d commits, Migrate returned after %d", i, crashK, at))
+					}
+				case shape == "cancel:"+cancelStyleNames[cancelNilCtxErr]:
+					viol("runner-marks-migration-applied-when-it-returns-nil-state-with-context-error",
+						fmt.Sprintf("slot %d (%d steps, resumed at step %d): Migrate observed the cancellation and returned (nil, ctx.Err()); the runner set the applied bit", i, slots[i].Steps, startStepOf(cl.calls, i)))
+				default:
+					viol("applied-bit-set-after-migration-returned:"+shape, fmt.Sprintf("slot %d", i))
 				}
-				viol(cls, fmt.Sprintf("slot %d (%d steps) has its applied bit set, its markers are incomplete; Migrate outcome: %s", i, slots[i].Steps, shape))
 			}
-			if bit && !pre.Current.Has(uint8(i)) {
-				if at, ok := completedAt[i]; !ok && markersPresent(after, i, slots[i].Steps) {
-					viol("applied-bit-set-without-completion-report", fmt.Sprintf("slot %d: no Migrate call returned (nil,nil) in this run", i))
-				} else if ok && crashK >= 0 && at > crashK {
-					viol("applied-bit-durable-before-migration-returned", fmt.Sprintf("slot %d", i))
-				}
+			if bit && len(reported) == 0 && !markersPresent(after, i, slots[i].Steps) {
+				viol("applied-bit-set-but-migration-work-incomplete", fmt.Sprintf("slot %d (%d steps) has its applied bit set, its markers are incomplete", i, slots[i].Steps))
 			}
 			if hasState && !bit {
 				if len(s) == 2 && s[0] == 0xA0+byte(i) && !markersPresent(after, i, int(s[1])) {
@@ -546,9 +548,18 @@ func runnerLineage(r *lib.Run, idx int) {
 			return // the database left the contract; nothing that follows is attributable
 		}
 	}
-	if idx < 2 {
+	if idx == 1 || idx == 2 {
 		r.Sample(map[string]any{"part": "runner bookkeeping lineage", "case": idx, "slots": slotStr, "history": history})
 	}
+}
+
+func startStepOf(cs []callRec, slot int) int {
+	for _, c := range cs {
+		if c.Slot == slot {
+			return c.StartStep
+		}
+	}
+	return -1
 }
 
 func bytesEqualNilEmpty(a, b []byte) bool {
